@@ -22,3 +22,6 @@ for f in sorted(glob.glob(os.path.join(ROOT, "replays", prop + "-*.json")), key=
     json.dump(case, open(os.path.join(d, "%s-%d.json" % (name, k)), "w"))
     k += 1
 print("stored", k, "corpus cases for", name)
+if k:
+    import subprocess
+    subprocess.run([sys.executable, os.path.join(ROOT, "tools", "validate_corpus.py"), prop], env=dict(os.environ, REPEAT="3"))
